@@ -9,7 +9,7 @@
  *   returns 1  =>  no position of [start, start+len) is a member          [stated for the ghost position verif_k]
  *   returns 0  =>  some position of [start, start+len) is a member        [existential: a witness is exhibited.
  *                  It lies in the byte of the first position, in the byte of the last position, or in the byte
- *                  whose address the contract of ext2fs_mem_is_zero publishes in the ghost verif_p2; the
+ *                  whose object offset the contract of ext2fs_mem_is_zero publishes in the ghost verif_g4; the
  *                  postcondition says that one of these three bytes holds a member inside the range]
  * ext2fs_mem_is_zero is REPLACED by its contract (specs/c16_ba_mem_is_zero.h, enforced on the real function by
  * unit bitmap_ba/mem_is_zero); its precondition "mem[0..len) readable" becomes an obligation here, so the byte
@@ -31,43 +31,44 @@
  "unwind": 9,
  "unwind_reason": "the two mask-building loops iterate once per bit of a partial byte, at most 7 times (mark_count <= 8 - start_bit <= 7, len_bit <= 7); checked by unwinding assertions",
  "sources": ["lib/ext2fs/bitops.c"],
+ "defines": ["BA_MAX_BITS=4096"],
+ "backend": "cadical",
  "functions": ["lib/ext2fs/blkmap64_ba.c:ba_test_clear_bmap_extent"],
- "assumes": ["bit array capped at 2^20 bits (object-size cap, no loop depends on it); geometry, contents, range and the 8 byte-misalignments otherwise symbolic",
+ "assumes": ["bit array capped at 4096 bits (object-size cap; the function has no loop that depends on the size); geometry, contents, range and the 8 byte-misalignments otherwise symbolic",
              "precondition bitmap->start <= start, start+len-1 <= bitmap->real_end without wrap-around (range check of the callers in gen_bitmap64.c)",
              "ext2fs_mem_is_zero replaced by its contract (proved by unit bitmap_ba/mem_is_zero)"],
  "native": false
 }
 */
 #include "verif.h"
-const unsigned char *verif_p1;	/* ghost: address of the byte holding the ghost bit verif_k */
-const unsigned char *verif_p2;	/* ghost: witness published by the contract of ext2fs_mem_is_zero */
+unsigned long long verif_g3;	/* ghost: object offset of the byte holding the ghost bit verif_k */
+unsigned long long verif_g4;	/* ghost: object offset of the witness published by the contract of ext2fs_mem_is_zero */
 #include "c16_ba_mem_is_zero.h"
 #include "ba_env.h"
 
-/* some position of [lo, hi) (bit indices) that lies in byte b of the array is a member */
-#define M1(arr, b, j, lo, hi) (8 * (b) + (j) >= (lo) && 8 * (b) + (j) < (hi) && BIT(arr, 8 * (b) + (j)))
-#define MEMBER_IN_BYTE(arr, b, lo, hi) \
-	(M1(arr, b, 0, lo, hi) || M1(arr, b, 1, lo, hi) || M1(arr, b, 2, lo, hi) || M1(arr, b, 3, lo, hi) || \
-	 M1(arr, b, 4, lo, hi) || M1(arr, b, 5, lo, hi) || M1(arr, b, 6, lo, hi) || M1(arr, b, 7, lo, hi))
-#define P2_IN_ARRAY(arr, nbytes) (__CPROVER_same_object(verif_p2, (arr)) && verif_p2 >= (const unsigned char *)(arr) && \
-				  verif_p2 < (const unsigned char *)(arr) + (nbytes))
+/* mask of the bits j of byte b whose position 8*b+j lies in [lo, hi) (bit indices relative to the array start) */
+#define MB(b, j, lo, hi) ((8 * (b) + (j) >= (lo) && 8 * (b) + (j) < (hi)) ? (1u << (j)) : 0u)
+#define RANGE_MASK(b, lo, hi) (MB(b, 0, lo, hi) | MB(b, 1, lo, hi) | MB(b, 2, lo, hi) | MB(b, 3, lo, hi) | \
+			       MB(b, 4, lo, hi) | MB(b, 5, lo, hi) | MB(b, 6, lo, hi) | MB(b, 7, lo, hi))
+/* some position of [lo, hi) that lies in byte b of the array is a member */
+#define MEMBER_IN_BYTE(arr, b, lo, hi) ((((const unsigned char *)(arr))[b] & RANGE_MASK(b, lo, hi)) != 0)
 #define REL(bm, p) ((p) - (bm)->start)
+#define NBYTES_OF(bm) ((((bm)->real_end - (bm)->start) / 8) + 1)
+#define W_BYTE(bm) ((unsigned long long)C16_IDX(verif_g4, ARR(bm)))	/* array index of the published witness byte */
 #define WITNESS(bm, S, L) \
 	(MEMBER_IN_BYTE(ARR(bm), REL(bm, S) >> 3, REL(bm, S), REL(bm, S) + (L)) || \
 	 MEMBER_IN_BYTE(ARR(bm), (REL(bm, S) + (L) - 1) >> 3, REL(bm, S), REL(bm, S) + (L)) || \
-	 (P2_IN_ARRAY(ARR(bm), (((bm)->real_end - (bm)->start) / 8) + 1) && \
-	  MEMBER_IN_BYTE(ARR(bm), (unsigned long long)(verif_p2 - (const unsigned char *)ARR(bm)), \
-			 REL(bm, S), REL(bm, S) + (L))))
+	 (W_BYTE(bm) < NBYTES_OF(bm) && MEMBER_IN_BYTE(ARR(bm), W_BYTE(bm), REL(bm, S), REL(bm, S) + (L))))
 
 static int ba_test_clear_bmap_extent(ext2fs_generic_bitmap_64 bitmap, __u64 start, unsigned int len)
 	REQUIRES(bitmap->start <= start && start <= bitmap->real_end)
 	REQUIRES(len == 0 || (start + len - 1 >= start && start + len - 1 <= bitmap->real_end))
-	REQUIRES(verif_p1 == (const unsigned char *)ARR(bitmap) + (verif_k >> 3))
+	REQUIRES(verif_g3 == C16_OFF(ARR(bitmap)) + (verif_k >> 3))
 	ENSURES(RET == 0 || RET == 1)
 	ENSURES(RET == 0 || !IN_RANGE(verif_k, REL(bitmap, start), REL(bitmap, start) + len) || BIT(ARR(bitmap), verif_k) == 0)
 	ENSURES(RET == 1 || (len > 0 && WITNESS(bitmap, start, len)))
 	ENSURES(BIT(ARR(bitmap), verif_k) == verif_old_bit)
-	ASSIGNS(verif_p2);
+	ASSIGNS(verif_g4);
 
 void h_ba_test_clear(void)
 {
@@ -76,8 +77,8 @@ void h_ba_test_clear(void)
 	ASSUME(IN.start <= IN.arg && IN.arg <= IN.real_end);
 	ASSUME(IN.num == 0 || (IN.arg + IN.num - 1 >= IN.arg && IN.arg + IN.num - 1 <= IN.real_end));
 	unsigned long long s0 = IN.arg - IN.start;
-	verif_p1 = (const unsigned char *)BP.bitarray + (verif_k >> 3);
-	verif_p2 = 0;
+	verif_g3 = C16_OFF(BP.bitarray) + (verif_k >> 3);
+	verif_g4 = 0;
 	int r = ba_test_clear_bmap_extent(&BM, IN.arg, IN.num);
 	CHECK(r == 0 || r == 1, "test_clear: returns 0 or 1");
 	if (r) {
